@@ -324,7 +324,20 @@ Proof.
 Qed.
 
 (* ---- from the bookkeeping to the task messages ---- *)
-Definition pend_eq (l l0 : list nstate) : Prop := forall a u, pend l a u = pend l0 a u.
+(* l is an intermediate state of a batch started in l0: same pending sets, doing only grew *)
+Definition pend_eq (l l0 : list nstate) : Prop :=
+  (forall a u, pend l a u = pend l0 a u) /\
+  (forall a u, In u (doing (getn l0 a)) -> In u (doing (getn l a))).
+
+Lemma pend_eq_refl l : pend_eq l l.
+Proof. split; intros; [reflexivity|assumption]. Qed.
+
+Lemma pend_eq_release c q acc x l : pend_eq l (fst (release c q acc x)) -> pend_eq l (fst acc).
+Proof.
+  intros [P D]. split.
+  - intros a u. rewrite P. apply release_pend.
+  - intros a u H. apply D. apply release_doing_mono. exact H.
+Qed.
 
 Lemma release_new_do c q acc x y t :
   In t (do_ (getn (fst (release c q acc x)) y)) ->
@@ -358,12 +371,12 @@ Proof.
   destruct (IH (release c q acc x) y) as [A B]. split.
   - intros t H. apply A in H. destruct H as [H|(l & P & Hl)].
     + apply release_new_do in H. destruct H as [H|[E H]]; [left; exact H|]. subst y.
-      right. exists (fst acc). split; [intros a u; reflexivity|exact H].
-    + right. exists l. split; [|exact Hl]. intros a u. rewrite P. apply release_pend.
+      right. exists (fst acc). split; [apply pend_eq_refl|exact H].
+    + right. exists l. split; [|exact Hl]. eapply pend_eq_release. exact P.
   - intros H. apply B in H. destruct H as [H|(l & t & P & Hl)].
     + apply release_new_rel in H. destruct H as [H|[E [t H]]]; [left; exact H|]. subst y.
-      right. exists (fst acc), t. split; [intros a u; reflexivity|exact H].
-    + right. exists l, t. split; [|exact Hl]. intros a u. rewrite P. apply release_pend.
+      right. exists (fst acc), t. split; [apply pend_eq_refl|exact H].
+    + right. exists l, t. split; [|exact Hl]. eapply pend_eq_release. exact P.
 Qed.
 
 Lemma put_job_do c acc x y :
@@ -492,7 +505,7 @@ Proof.
   destruct (dispatch_newms c s A Id) as (newms & cl & k & P & Hk & C & F & M).
   exists newms, cl, k. repeat (split; [assumption|]).
   intros m Hm a Ha. cbn zeta.
-  destruct (M m Hm) as (Ok & l & t & Pq & Av & Tt).
+  destruct (M m Hm) as (Ok & l & t & [Pq Dm] & Av & Tt).
   set (x := m_job m) in *.
   (* the available target is the message's target *)
   assert (Et : t = m_tgt m).
